@@ -1,6 +1,7 @@
 import OasisModel.Mux.Proposal
 import OasisProofs.Helpers.Mux
 import Generated.MapRangeSites
+import Generated.MuxFacts
 import Mathlib.Logic.Equiv.List
 /-
 C01 — replicas compute identical state and results for identical blocks (PARTIAL).
@@ -19,6 +20,10 @@ What stays outside the theorems (hence partial): Go's map iteration order itself
 interleavings (CheckTx and queries are sequentialised here), NodeDB reload from disk (`restart` is
 "state as of the last Commit").  Those are exercised by harness/cmd/muxdrv only.
 -/
+set_option linter.unusedSectionVars false
+set_option linter.unnecessarySeqFocus false
+set_option linter.unusedSimpArgs false
+
 namespace OasisProofs.C01
 open OasisModel.Mux OasisProofs.MuxH
 
@@ -247,7 +252,7 @@ def metaBodies : List (RawTx Tx Root) → List (Option (Root × Root))
   | .user _ :: ts => metaBodies ts
   | .sysMeta _ _ body :: ts => body :: metaBodies ts
 
-omit [DecidableEq Tx] [DecidableEq Hdr] [DecidableEq Ev] in
+omit [DecidableEq Tx] [DecidableEq Root] [DecidableEq Hdr] [DecidableEq Ev] in
 theorem deliverAll_sys (A : Apps St W Tx R Root Hdr LC Ev) (he : Bool) (wk wk' : Work W Root)
     (txs : List (RawTx Tx Root)) (rs : List R) (h : deliverAll A he wk txs = some (wk', rs)) :
     wk'.sys = wk.sys ++ metaBodies txs ∧
@@ -312,6 +317,7 @@ theorem endOne_false_some (A : Apps St W Tx R Root Hdr LC Ev) (wk wk2 : Work W R
       exact ⟨w', rfl, hv⟩
     · cases h
 
+omit [DecidableEq Tx] [DecidableEq Hdr] [DecidableEq Ev] in
 /-- **`meta_binds_root`.**  If a block executes (ProcessProposal accepts it by execution, or its
 delivery gets past EndBlock), then it contains exactly one block-metadata transaction, signed by
 the block's proposer, well formed, and carrying exactly the state root and the provable-events
@@ -371,6 +377,284 @@ theorem process_rejects_unbound_root (A : Apps St W Tx R Root Hdr LC Ev) (m : Mu
   | none => rfl
   | some x => exact absurd (meta_binds_root A m.canon b x hx).1 (hbad x hx)
 
+
+/-! ### Without the commit-info hypothesis: the metadata transaction still pins the state
+
+`Env.commitInfo` cannot be proved from the code (`commit_info_hypothesis_necessary`).  What the
+code does guarantee without it: a stale cache entry can only be served for a block the executor
+*rejects*, or for one on which it reaches a state with the same root.  So if the decided block is
+valid — some honest validator executed and accepted it — every replica commits the executor's
+state (up to collisions of the state root hash), even the one that answered from a stale cache. -/
+
+/-- `Env` without `commitInfo`. -/
+structure EnvWeak (A : Apps St W Tx R Root Hdr LC Ev) (hashOf : Blk Tx Root Hdr LC Ev → Hash) (me : Nat)
+    (cs : List (Call Tx Root Hdr LC Ev)) : Prop where
+  hinj : ∀ b b', hashOf b = hashOf b' → b = b'
+  hnz : ∀ b, hashOf b ≠ 0
+  wf : ∀ h b, Call.process h b ∈ cs → h = hashOf b
+  selfProposer : ∀ b0, Call.prepare b0 ∈ cs → A.proposer b0.hdr = me
+
+def GoodW (A : Apps St W Tx R Root Hdr LC Ev) (hashOf : Blk Tx Root Hdr LC Ev → Hash)
+    (cs : List (Call Tx Root Hdr LC Ev)) (s : St) (self : Nat) (p : Proposal W Tx R Root Hdr Ev) : Prop :=
+  match p.results with
+  | none => p.work = none
+  | some res =>
+    (∀ hdr txs ev, p.recd = some (hdr, txs, ev) →
+      ∃ b0 wk, Call.prepare b0 ∈ cs ∧ hdr = b0.hdr ∧ ev = b0.ev ∧ p.work = some wk ∧
+        PreparedBy A s self b0 wk txs res) ∧
+    (p.hash = 0 ∨ ∃ b wk, p.hash = hashOf b ∧ p.work = some wk ∧ res.2.1.length = b.txs.length ∧
+      ∀ x, exec A s b = some x → A.root (A.tree wk.w) = A.root (A.tree x.1.w))
+
+def InvW (A : Apps St W Tx R Root Hdr LC Ev) (hashOf : Blk Tx Root Hdr LC Ev → Hash)
+    (cs : List (Call Tx Root Hdr LC Ev)) (s : St) (self : Nat) (m : Mux St W Tx R Root Hdr Ev) : Prop :=
+  m.canon = s ∧ m.self = self ∧ ∀ p, m.prop = some p → GoodW A hashOf cs s self p
+
+omit [DecidableEq Tx] [DecidableEq Root] [DecidableEq Hdr] [DecidableEq Ev] in
+theorem metaBodies_append (xs ys : List (RawTx Tx Root)) :
+    metaBodies (xs ++ ys) = metaBodies xs ++ metaBodies ys := by
+  induction xs with
+  | nil => rfl
+  | cons t ts ih => cases t <;> simp [metaBodies, ih]
+
+omit [DecidableEq Tx] [DecidableEq Root] [DecidableEq Hdr] [DecidableEq Ev] in
+theorem metaBodies_nil_of_no_sys (txs : List (RawTx Tx Root))
+    (h : ∀ sg wf body, RawTx.sysMeta sg wf body ∉ txs) : metaBodies txs = [] := by
+  induction txs with
+  | nil => rfl
+  | cons t ts ih =>
+    cases t with
+    | user u => simp only [metaBodies]; exact ih (fun sg wf body hm => h sg wf body (List.mem_cons_of_mem _ hm))
+    | sysMeta sg wf body => exact absurd (List.mem_cons_self) (h sg wf body)
+
+/-- What a proposer caches for its own block has the root a validating executor computes for any
+block with the same transactions — whatever that block's commit info. -/
+theorem prepared_root_bound (A : Apps St W Tx R Root Hdr LC Ev) (s : St) (self : Nat)
+    (b0 b : Blk Tx Root Hdr LC Ev) (wk : Work W Root) (res : R × List R × R)
+    (hprep : PreparedBy A s self b0 wk b.txs res) :
+    res.2.1.length = b.txs.length ∧
+      ∀ x, exec A s b = some x → A.root (A.tree wk.w) = A.root (A.tree x.1.w) := by
+  obtain ⟨rb, rds, re, hexec, htxs, rfl⟩ := hprep
+  have hlen := exec_results_length A s true _ _ _ _ _ _ _ _ hexec
+  refine ⟨by simp [htxs, hlen], ?_⟩
+  intro x hx
+  have hmb := (meta_binds_root A s b x hx).1
+  -- the prepared transactions contain no system transaction
+  have hnosys : metaBodies b0.txs = [] := by
+    apply metaBodies_nil_of_no_sys
+    intro sg wf body hmem
+    simp only [execBlock] at hexec
+    cases hb : beginOne A s b0.hdr b0.lc b0.ev with
+    | none => simp [hb] at hexec
+    | some y =>
+      simp only [hb] at hexec
+      cases hd : deliverAll A true y.1 b0.txs with
+      | none => simp [hd] at hexec
+      | some z =>
+        have := (deliverAll_sys A true y.1 z.1 b0.txs z.2 hd).2 sg wf body hmem
+        exact absurd this.2.2 (by decide)
+  rw [htxs, metaBodies_append, hnosys] at hmb
+  simp only [metaTx, metaBodies, List.nil_append, List.cons.injEq, Option.some.injEq, Prod.mk.injEq,
+    and_true] at hmb
+  exact hmb.1
+
+theorem step_pre_invW (A : Apps St W Tx R Root Hdr LC Ev) (hashOf : Blk Tx Root Hdr LC Ev → Hash)
+    (cs : List (Call Tx Root Hdr LC Ev)) (s : St) (self : Nat) (env : EnvWeak A hashOf self cs)
+    (m m' : Mux St W Tx R Root Hdr Ev) (c : Call Tx Root Hdr LC Ev) (r : Resp Tx R Root)
+    (hc : c ∈ cs) (hpre : c.isPre = true) (hinv : InvW A hashOf cs s self m)
+    (hs : step A m c = some (m', r)) : InvW A hashOf cs s self m' := by
+  obtain ⟨hcanon, hself, hgood⟩ := hinv
+  cases c with
+  | prepare b0 =>
+    simp only [step, prepare, Option.some.injEq] at hs
+    cases he : execBlock A m.canon true b0.hdr b0.lc b0.ev b0.txs with
+    | none =>
+      simp only [he, Prod.mk.injEq] at hs
+      obtain ⟨rfl, _⟩ := hs
+      refine ⟨hcanon, hself, ?_⟩
+      intro p hp
+      simp only [Option.some.injEq] at hp
+      subst hp
+      simp [GoodW, freshProposal]
+    | some x =>
+      obtain ⟨wk, rb, rds, re⟩ := x
+      simp only [he, Prod.mk.injEq] at hs
+      obtain ⟨rfl, _⟩ := hs
+      refine ⟨hcanon, hself, ?_⟩
+      intro p hp
+      simp only [Option.some.injEq] at hp
+      subst hp
+      simp only [GoodW]
+      refine ⟨?_, Or.inl trivial⟩
+      intro hdr txs ev hrec
+      simp only [Option.some.injEq, Prod.mk.injEq] at hrec
+      obtain ⟨rfl, rfl, rfl⟩ := hrec
+      refine ⟨b0, wk, hc, rfl, rfl, rfl, rb, rds, re, ?_, ?_, rfl⟩
+      · rw [← hcanon]; exact he
+      · rw [hself]
+  | process h b =>
+    have hh : h = hashOf b := env.wf h b hc
+    have hz : (h == 0) = false := by simp [hh, env.hnz b]
+    simp only [step, process, Option.some.injEq] at hs
+    by_cases hr : reusable m b = true
+    · simp only [hr, if_true, Prod.mk.injEq] at hs
+      obtain ⟨rfl, _⟩ := hs
+      refine ⟨hcanon, hself, ?_⟩
+      intro p' hp'
+      unfold reusable at hr
+      cases hp : m.prop with
+      | none => simp [hp] at hr
+      | some p =>
+        simp only [hp, Bool.and_eq_true] at hr
+        simp only [hp, Option.map_some, Option.some.injEq] at hp'
+        subst hp'
+        have hg := hgood p hp
+        have hrec := isEqual_recd p b.hdr b.txs b.ev hr.2
+        cases hres : p.results with
+        | none => simp [hres] at hr
+        | some res =>
+          simp only [GoodW, hres] at hg ⊢
+          refine ⟨hg.1, Or.inr ?_⟩
+          obtain ⟨b0, wk, hb0, hhdr, hev, hwork, hprep⟩ := hg.1 _ _ _ hrec
+          obtain ⟨hlen, hroot⟩ := prepared_root_bound A s self b0 b wk res hprep
+          exact ⟨b, wk, hh, hwork, hlen, hroot⟩
+    · simp only [hr, hz] at hs
+      cases he : execBlock A m.canon false b.hdr b.lc b.ev b.txs with
+      | none =>
+        simp only [he, Bool.false_eq_true, if_false, Prod.mk.injEq] at hs
+        obtain ⟨rfl, _⟩ := hs
+        refine ⟨hcanon, hself, ?_⟩
+        intro p hp
+        simp only [Option.some.injEq] at hp
+        subst hp
+        simp [GoodW, freshProposal]
+      | some x =>
+        obtain ⟨wk, rb, rds, re⟩ := x
+        simp only [he, Bool.false_eq_true, if_false, Prod.mk.injEq] at hs
+        obtain ⟨rfl, _⟩ := hs
+        refine ⟨hcanon, hself, ?_⟩
+        intro p hp
+        simp only [Option.some.injEq] at hp
+        subst hp
+        simp only [GoodW]
+        refine ⟨(by intro _ _ _ h; cases h), Or.inr ⟨b, wk, hh, rfl, ?_, ?_⟩⟩
+        · exact exec_results_length A m.canon false _ _ _ _ _ _ _ _ he
+        · intro x hx
+          rw [← hcanon] at hx
+          simp only [exec, he, Option.some.injEq] at hx
+          rw [← hx]
+  | restart =>
+    simp only [step, restart, Option.some.injEq, Prod.mk.injEq] at hs
+    obtain ⟨rfl, _⟩ := hs
+    exact ⟨hcanon, hself, by intro p hp; cases hp⟩
+  | checkTx t =>
+    simp only [step, Option.some.injEq, Prod.mk.injEq] at hs
+    obtain ⟨rfl, _⟩ := hs
+    exact ⟨hcanon, hself, hgood⟩
+  | simulate t =>
+    simp only [step, Option.some.injEq, Prod.mk.injEq] at hs
+    obtain ⟨rfl, _⟩ := hs
+    exact ⟨hcanon, hself, hgood⟩
+  | query =>
+    simp only [step, Option.some.injEq, Prod.mk.injEq] at hs
+    obtain ⟨rfl, _⟩ := hs
+    exact ⟨hcanon, hself, hgood⟩
+  | begin h b => simp [Call.isPre] at hpre
+  | deliver t => simp [Call.isPre] at hpre
+  | endBlock => simp [Call.isPre] at hpre
+  | commit => simp [Call.isPre] at hpre
+
+theorem run_pre_invW (A : Apps St W Tx R Root Hdr LC Ev) (hashOf : Blk Tx Root Hdr LC Ev → Hash)
+    (cs : List (Call Tx Root Hdr LC Ev)) (s : St) (self : Nat) (env : EnvWeak A hashOf self cs)
+    (P : List (Call Tx Root Hdr LC Ev)) (hP : ∀ c ∈ P, c ∈ cs ∧ c.isPre = true)
+    (m : Mux St W Tx R Root Hdr Ev) (hinv : InvW A hashOf cs s self m) :
+    ∃ m' rs, run A m P = some (m', rs) ∧ InvW A hashOf cs s self m' := by
+  induction P generalizing m with
+  | nil => exact ⟨m, [], rfl, hinv⟩
+  | cons c P ih =>
+    obtain ⟨x, hx⟩ := step_pre_some A m c (hP c (by simp)).2
+    obtain ⟨m1, r⟩ := x
+    have hinv1 := step_pre_invW A hashOf cs s self env m m1 c r (hP c (by simp)).1 (hP c (by simp)).2 hinv hx
+    obtain ⟨m2, rs, hr, hinv2⟩ := ih (fun c' hc' => hP c' (by simp [hc'])) m1 hinv1
+    exact ⟨m2, r :: rs, by simp [run, hx, hr], hinv2⟩
+
+/-- **Without `Env.commitInfo`: a valid decided block still yields the executor's state.**
+Same grammar as `mux_path_independent`, no hypothesis about commit info, the state root hash
+injective (collision resistance, a hypothesis).  If the executor accepts the decided block, then
+the delivery succeeds on this replica too and commits exactly the executor's state — also when
+the replica answered from a cache entry computed with other commit info.  (The *results* handed
+back may then be the stale ones; only the state is pinned by the metadata transaction.) -/
+theorem valid_block_state_bound (A : Apps St W Tx R Root Hdr LC Ev)
+    (hashOf : Blk Tx Root Hdr LC Ev → Hash) (hroot : Function.Injective A.root)
+    (m : Mux St W Tx R Root Hdr Ev)
+    (J P : List (Call Tx Root Hdr LC Ev)) (b : Blk Tx Root Hdr LC Ev)
+    (hJ : ∀ c ∈ J, c.isCommit = false)
+    (hJr : (J = [] ∧ m.prop = none) ∨ ∃ J', J = J' ++ [Call.restart])
+    (hP : ∀ c ∈ P, c.isPre = true)
+    (env : EnvWeak A hashOf m.self P)
+    (m1 : Mux St W Tx R Root Hdr Ev) (r1 : List (Resp Tx R Root)) (hrun : run A m J = some (m1, r1))
+    (x : Work W Root × R × List R × R) (hvalid : exec A m.canon b = some x) :
+    ∃ m' outs, run A m (J ++ P ++ deliverSeq (hashOf b) b) = some (m', outs) ∧
+      m'.canon = A.tree x.1.w ∧ m'.prop = none := by
+  have hidle : m1.canon = m.canon ∧ m1.self = m.self ∧ m1.prop = none := by
+    have hc := run_canon A m m1 J r1 hrun hJ
+    refine ⟨hc.1, hc.2, ?_⟩
+    rcases hJr with ⟨rfl, hp⟩ | ⟨J', rfl⟩
+    · simp only [run_nil, Option.some.injEq, Prod.mk.injEq] at hrun
+      rw [← hrun.1]; exact hp
+    · rw [run_append] at hrun
+      cases h1 : run A m J' with
+      | none => simp [h1] at hrun
+      | some y =>
+        simp only [h1, Option.bind_some, run_cons, step, run_nil, Option.map_some, Option.some.injEq,
+          Prod.mk.injEq] at hrun
+        rw [← hrun.1]; rfl
+  have hinv : InvW A hashOf P m.canon m.self m1 :=
+    ⟨hidle.1, hidle.2.1, by intro p hp; rw [hidle.2.2] at hp; cases hp⟩
+  obtain ⟨m2, rP, hrP, hcanon, hself, hgood⟩ := run_pre_invW A hashOf P m.canon m.self env P
+    (fun c hc => ⟨hc, hP c hc⟩) m1 hinv
+  -- the delivery from m2
+  have hdel : ∃ m' outs, run A m2 (deliverSeq (hashOf b) b) = some (m', outs) ∧
+      m'.canon = A.tree x.1.w ∧ m'.prop = none := by
+    have fresh : BeginsFresh m2 (hashOf b) → ∃ m' outs, run A m2 (deliverSeq (hashOf b) b) = some (m', outs) ∧
+        m'.canon = A.tree x.1.w ∧ m'.prop = none := by
+      intro hf
+      rw [run_deliverSeq_fresh A m2 (hashOf b) (env.hnz b) b hf, hcanon, hvalid]
+      exact ⟨_, _, rfl, rfl, rfl⟩
+    cases hp : m2.prop with
+    | none => exact fresh (by intro p hp'; rw [hp] at hp'; cases hp')
+    | some p =>
+      by_cases hh : p.hash = hashOf b
+      · have hg := hgood p hp
+        cases hres : p.results with
+        | none =>
+          simp only [GoodW, hres] at hg
+          apply fresh
+          intro p' hp' _
+          rw [hp] at hp'; cases hp'
+          exact ⟨hres, hg⟩
+        | some res =>
+          simp only [GoodW, hres] at hg
+          rcases hg.2 with h0 | ⟨b', wk, hb', hwork, hlen, hrt⟩
+          · exact absurd (hh.symm.trans h0) (env.hnz b)
+          · have : b' = b := env.hinj _ _ (hb'.symm.trans hh)
+            subst this
+            obtain ⟨rb, rds, re⟩ := res
+            obtain ⟨mself, mcanon, mprop, mcheck⟩ := m2
+            obtain ⟨precd, phash, pwork, presults⟩ := p
+            simp only at hp hh hres hwork hcanon hself hlen
+            subst hp hh hres hwork hcanon
+            rw [run_deliverSeq_cached A _ _ _ _ _ wk rb re rds b' hlen]
+            exact ⟨_, _, rfl, hroot (hrt x hvalid), rfl⟩
+      · apply fresh
+        intro p' hp' hh'
+        rw [hp] at hp'; cases hp'
+        exact absurd hh' hh
+  obtain ⟨m', outs, hrd, hc', hp'⟩ := hdel
+  refine ⟨m', r1 ++ rP ++ outs, ?_, hc', hp'⟩
+  rw [List.append_assoc, run_append, hrun]
+  simp only [Option.bind_some]
+  rw [run_append, hrP]
+  simp only [Option.bind_some, hrd, Option.map_some, List.append_assoc]
 
 /-! ### The environment hypothesis on commit info cannot be dropped (and non-vacuity) -/
 
@@ -591,7 +875,7 @@ theorem Order.delete_perm {K V : Type} [DecidableEq K] (p : K → Bool) (keys : 
     funext k'
     by_cases hp : p k = true <;> by_cases hk : k' = k <;> by_cases hm : k' ∈ ks <;> simp_all [upd]
 
-theorem Order.delete_perm' {K V : Type} [DecidableEq K] (p : K → Bool) {l1 l2 : List K} (hp : l1.Perm l2)
+theorem Order.delete_perm_order {K V : Type} [DecidableEq K] (p : K → Bool) {l1 l2 : List K} (hp : l1.Perm l2)
     (m : K → Option V) :
     l1.foldl (fun m k => if p k then upd m k none else m) m =
       l2.foldl (fun m k => if p k then upd m k none else m) m := by
@@ -728,6 +1012,91 @@ theorem Order.argmax_majority_perm {H : Type} (d : H) {l1 l2 : List (H × Nat)} 
         omega
 
 
+
+/-! ## Regenerated source facts of the proposal cache
+
+`tools/gen muxfacts` prints, from the current source, the pieces of `abci/state.go`, `abci/mux.go`,
+`abci/system.go` and `api/block.go` the model was written from.  Each theorem below pins them to
+what was read when the model was written, next to the model definition it justifies; a change of
+any of them (say, `isEqual` starts comparing the commit info, `BlockInfo` grows a field the cache
+does not compare, a guard of the metadata check is dropped) breaks the build until the model has
+been re-read against the code. -/
+
+open Generated.MuxFacts in
+/-- `isEqual` (model: `isEqual`, `reusable`): exactly header, transactions, misbehaviour — no
+commit info; ProcessProposal reuses on `exists ∧ executed ∧ isEqual`, otherwise executes with the
+request's hash, header, txs, *proposed last commit*, misbehaviour; PrepareProposal executes with the
+empty hash and the *local* last commit and records header, txs (with the metadata transaction
+appended) and misbehaviour. -/
+theorem source_isEqual_and_proposal_calls :
+    isEqualParams = ["header *cmtproto.Header", "txs [][]byte", "misbehavior []types.Misbehavior"] ∧
+    isEqualConditions = ["ps.header == nil",
+      "!bytes.Equal(header.ProposerAddress, ps.header.ProposerAddress)",
+      "len(txs) != len(ps.txs)", "len(misbehavior) != len(ps.misbehavior)",
+      "!proto.Equal(header, ps.header)", "!bytes.Equal(txs[i], ps.txs[i])",
+      "!proto.Equal(&misbehavior[i], &ps.misbehavior[i])"] ∧
+    processProposalConditions.head? = some
+      "mux.state.proposal != nil && !mux.state.proposal.needsExecution() && mux.state.proposal.isEqual(&header, req.Txs, req.Misbehavior)" ∧
+    processProposalAssigns = ["mux.state.proposal.hash = req.Hash"] ∧
+    processProposalExecuteArgs = ["req.Hash, header, req.Txs, req.ProposedLastCommit, req.Misbehavior"] ∧
+    prepareProposalExecuteArgs = ["[]byte{}, header, txs, lastCommit, req.Misbehavior"] ∧
+    prepareProposalRecords = ["p.header = &header", "p.txs = txs", "p.misbehavior = req.Misbehavior"] ∧
+    prepareProposalResultAssigns =
+      ["mux.state.proposal.resultsDeliverTx = append(mux.state.proposal.resultsDeliverTx, systemTxResults...)"] :=
+  ⟨rfl, rfl, rfl, rfl, rfl, rfl, rfl, rfl⟩
+
+open Generated.MuxFacts in
+/-- What an application can read about a block besides its transactions (model: the arguments of
+`Apps.begin`): `BlockInfo` = time and proposer address (from the header), last-commit info,
+misbehaviour; the other three fields are scratch space filled during execution.  Everything in it
+is compared by `isEqual` except `LastCommitInfo`. -/
+theorem source_block_info :
+    blockInfoFields = ["Time time.Time", "ProposerAddress []byte", "LastCommitInfo types.CommitInfo",
+      "ValidatorMisbehavior []types.Misbehavior", "GasAccountant GasAccountant",
+      "SystemTransactions []*transaction.Transaction", "ProvableEvents []events.Provable"] ∧
+    beginBlockInfo = ["Time: req.Header.Time", "ProposerAddress: req.Header.ProposerAddress",
+      "LastCommitInfo: req.LastCommitInfo", "ValidatorMisbehavior: req.ByzantineValidators"] :=
+  ⟨rfl, rfl⟩
+
+open Generated.MuxFacts in
+/-- The cache itself (model: `Proposal`, `beginBlock`, `deliverTx`, `endBlock`): the fields of
+`proposalState`; "executed" means all three results are set, and they are set together;
+BeginBlock resets unless the hash is unchanged; DeliverTx pops the queue and panics when it is
+empty; EndBlock panics when it is not, and validates system transactions last. -/
+theorem source_cache_guards :
+    proposalStateFields = ["header *cmtproto.Header", "txs [][]byte", "misbehavior []types.Misbehavior",
+      "hash []byte", "tree mkvs.OverlayTree", "resultsBeginBlock *types.ResponseBeginBlock",
+      "resultsDeliverTx []*types.ResponseDeliverTx", "resultsEndBlock *types.ResponseEndBlock"] ∧
+    needsExecutionReturns =
+      ["ps.resultsBeginBlock == nil || ps.resultsDeliverTx == nil || ps.resultsEndBlock == nil"] ∧
+    setResultsAssigns = ["ps.resultsBeginBlock = resultsBeginBlock", "ps.resultsDeliverTx = resultsDeliverTx",
+      "ps.resultsEndBlock = resultsEndBlock"] ∧
+    executeProposalAssigns = ["mux.state.proposal.hash = hash"] ∧
+    executeProposalSetResults = ["&resultsBeginBlock, resultsDeliverTx, &resultsEndBlock"] ∧
+    resetIfChangedConditions = ["s.proposal != nil && bytes.Equal(s.proposal.hash, h)"] ∧
+    beginBlockConditions.head? =
+      some "!mux.state.resetProposalIfChanged(req.Hash) && !mux.state.proposal.needsExecution()" ∧
+    deliverTxConditions.take 2 =
+      ["!mux.state.proposal.needsExecution()", "len(mux.state.proposal.resultsDeliverTx) == 0"] ∧
+    deliverTxAssigns = ["mux.state.proposal.resultsDeliverTx = mux.state.proposal.resultsDeliverTx[1:]"] ∧
+    endBlockConditions.take 2 =
+      ["!mux.state.proposal.needsExecution()", "len(mux.state.proposal.resultsDeliverTx) != 0"] ∧
+    endBlockConditions.getLast? = some "err := mux.validateSystemTxs(); err != nil" :=
+  ⟨rfl, rfl, rfl, rfl, rfl, rfl, rfl, rfl, rfl, rfl, rfl⟩
+
+open Generated.MuxFacts in
+/-- System transactions (model: `deliverOne` on `sysMeta`, `validate`, `metaTx`). -/
+theorem source_system_txs :
+    processSystemTxConditions = ["ctx.Mode() != api.ContextDeliverTx", "len(mux.state.proposal.hash) == 0",
+      "tx.Nonce != 0 || tx.Fee != nil",
+      "proposerAddress := ctx.BlockContext().ProposerAddress; !bytes.Equal(txSignerAddress, proposerAddress)"] ∧
+    validateSystemTxsConditions = ["len(mux.state.proposal.hash) == 0", "hasBlockMetadata",
+      "err := cbor.Unmarshal(tx.Body, &meta); err != nil", "err := meta.ValidateBasic(); err != nil",
+      "err != nil", "!stateRoot.Equal(&meta.StateRoot)", "err != nil",
+      "!bytes.Equal(eventsRoot, meta.EventsRoot)", "!hasBlockMetadata"] ∧
+    prepareSystemTxsMeta = ["StateRoot: stateRoot", "EventsRoot: eventsRoot"] :=
+  ⟨rfl, rfl, rfl⟩
+
 /-! ## The regenerated map-range site ledger
 
 `tools/gen maprange` lists (with go/types) every place in the consensus-critical packages where
@@ -748,7 +1117,7 @@ inductive Discharge where
   | perKey
   /-- `Order.set_insert_perm`: a set / index consulted for membership only. -/
   | setInsert
-  /-- `Order.delete_perm'`. -/
+  /-- `Order.delete_perm_order`. -/
   | deleteByPred
   /-- `Order.emit_set_perm`: output consumed as a set. -/
   | emitSet
@@ -805,7 +1174,7 @@ theorem discharge_sound (d : Discharge) : d.statement := by
   | groupSum => intro α K _ key q l1 l2 hp m; exact Order.group_sum_perm key q hp m
   | perKey => intro K V U _ g l1 l2 hp hk m; exact Order.perkey_update_perm g hp hk m
   | setInsert => intro α K _ key l1 l2 hp s; exact Order.set_insert_perm key hp s
-  | deleteByPred => intro K V _ p l1 l2 hp m; exact Order.delete_perm' p hp m
+  | deleteByPred => intro K V _ p l1 l2 hp m; exact Order.delete_perm_order p hp m
   | emitSet => intro α β g l1 l2 hp u; exact (Order.emit_set_perm g hp).2 u
   | allCheck => intro α p l1 l2 hp; exact Order.all_perm p hp
   | anyCheck => intro α p l1 l2 hp; exact Order.any_perm p hp
